@@ -185,6 +185,25 @@ fn main() {
                 let (p, b) = (mk(&mut rng, &shared), mk(&mut rng, &shared));
                 out.rec(&rel(&p, &b));
             }
+            // scale: operands of 255..300 components (shared prefix of 0 / 3 / all-but-one / all components of the shorter one)
+            for n in [255usize, 256, 257, 300] {
+                for m in [1usize, 255, 256, 257] {
+                    for shared in [0usize, 3, n.min(m) - 1, n.min(m)] {
+                        if mine(&mut id) {
+                            let mk = |len: usize, tail: &str| -> String {
+                                let mut v: Vec<&str> = vec!["s"; shared.min(len)];
+                                while v.len() < len {
+                                    v.push(tail);
+                                }
+                                format!("/{}", v.join("/"))
+                            };
+                            let (p, b) = (mk(n, "p"), mk(m, "b"));
+                            prog.mark(id, "relative long");
+                            out.rec(&rel(&p, &b));
+                        }
+                    }
+                }
+            }
             // relative (non-absolute) clean operands, as in the rustdoc example
             let relp: Vec<String> = clean_paths(&["a", "ab"], 3).iter().filter(|x| x.len() > 1).map(|x| x[1..].to_string()).collect();
             for p in &relp {
